@@ -1238,14 +1238,7 @@ impl TypeChecker {
                     .equ(span, ctx, a, *b)
                     .and(self.cmp(span, ctx, a, *b, &mut BTreeSet::new())),
 
-                Constraint::Neg => match self.find_type(a) {
-                    Type::Unknown | Type::Int | Type::Float => Ok(()),
-                    _ => err_type_error!(
-                        self,
-                        span,
-                        TypeError::UniOp { val: self.bake_type(a), op: "-".to_string() }
-                    ),
-                },
+                Constraint::Neg => self.neg(span, a, &mut BTreeSet::new()),
 
                 Constraint::ConstantIndex(index, ret) => {
                     self.constant_index(span, ctx, a, *index, *ret)
@@ -1860,6 +1853,39 @@ impl TypeChecker {
                     rhs: self.bake_type(b),
                     op: "+".to_string(),
                 }
+            ),
+        }
+    }
+
+    fn neg(&mut self, span: Span, a: TyID, seen: &mut BTreeSet<TyID>) -> TypeResult<()> {
+        // NOTE: Types can be cyclic since unification has no occurs check, so we remember the
+        // types that have been looked at.
+        let a = self.find(a);
+        if !seen.insert(a) {
+            return Ok(());
+        }
+        match self.find_type(a) {
+            Type::Unknown => {
+                // We cannot tell yet - remember the requirement, this might be an element of a
+                // tuple.
+                self.add_constraint(a, span, Constraint::Neg);
+                Ok(())
+            }
+
+            Type::Int | Type::Float => Ok(()),
+
+            // Negation is element-wise, like the other arithmetic on tuples.
+            Type::Tuple(a) => {
+                for a in a.iter() {
+                    self.neg(span, *a, seen)?;
+                }
+                Ok(())
+            }
+
+            _ => err_type_error!(
+                self,
+                span,
+                TypeError::UniOp { val: self.bake_type(a), op: "-".to_string() }
             ),
         }
     }
